@@ -34,6 +34,10 @@ impl Drop for X { fn drop(&mut self) { log(Ev::Drop(self.0)); } }
 pub struct Y(pub u32);
 impl Drop for Y { fn drop(&mut self) { log(Ev::Drop(self.0)); } }
 
+/// Inserted once at setup and never touched again: `is_changed()` is true exactly on a system's first run.
+#[derive(Resource)]
+pub struct TickProbe;
+
 struct Canary(u8);
 impl Drop for Canary { fn drop(&mut self) { log(Ev::Canary(self.0)); } }
 
@@ -53,10 +57,13 @@ pub struct Readers<'w, 's>
     ra: RemovalEvent<'w, 's, A>,
     rb: RemovalEvent<'w, 's, B>,
     d: DespawnEvent<'w>,
+    tick: Res<'w, TickProbe>,
 }
 
 impl<'w, 's> Readers<'w, 's>
 {
+    pub fn changed(&self) -> bool { self.tick.is_changed() }
+
     /// Samples every reader. Taken system-event payloads are returned so the caller can drop them after logging.
     pub fn sample(&mut self) -> (Sample, (Option<X>, Option<Y>))
     {
@@ -85,6 +92,7 @@ impl<'w, 's> Readers<'w, 's>
 #[derive(SystemParam)]
 pub struct PlainParams<'w, 's>
 {
+    pub tick: Res<'w, TickProbe>,
     c: Commands<'w, 's>,
     h: ResMut<'w, H>,
     qa: ReactiveMut<'w, 's, A>,
@@ -316,7 +324,7 @@ pub fn plain_actor<Ret: MkRet>(inst: u8) -> impl FnMut(Readers, PlainParams, Loc
         *n += 1;
         cap += 1;
         let (s, held) = r.sample();
-        log(Ev::Body { inst, n: *n, cap, s });
+        log(Ev::Body { inst, n: *n, cap, s, chg: r.changed() });
         drop(held);
         let run = p.h.next_run(inst);
         let prog = p.h.prog.clone();
@@ -338,7 +346,7 @@ pub fn ewr_actor<T: EntityWorldReactor<Local = u32>>(inst: u8)
         *n += 1;
         cap += 1;
         let (s, held) = r.sample();
-        log(Ev::Body { inst, n: *n, cap, s });
+        log(Ev::Body { inst, n: *n, cap, s, chg: r.changed() });
         drop(held);
         let src = l.entity();
         let src_alive = ents.contains(src);
@@ -366,8 +374,8 @@ pub fn excl_actor<Ret: MkRet>(inst: u8) -> impl FnMut(&mut World, &mut SystemSta
         let _ = &canary;
         *n += 1;
         cap += 1;
-        let (s, held) = { let mut r = st.get_mut(world); r.sample() };
-        log(Ev::Body { inst, n: *n, cap, s });
+        let ((s, held), chg) = { let mut r = st.get_mut(world); (r.sample(), r.changed()) };
+        log(Ev::Body { inst, n: *n, cap, s, chg });
         drop(held);
         let run = world.resource_mut::<H>().next_run(inst);
         let prog = world.resource::<H>().prog.clone();
@@ -1074,6 +1082,7 @@ fn run_inner(prog: &Arc<Program>)
     let mut app = App::new();
     app.add_plugins(ReactPlugin);
     let ninst = prog.insts.len();
+    app.world_mut().insert_resource(TickProbe);
     app.world_mut().insert_react_resource(RR(0));
     app.world_mut().insert_react_resource(RS(0));
     // slots first, so that a world reactor's starting triggers can name them
@@ -1194,6 +1203,7 @@ fn run_inner(prog: &Arc<Program>)
                 log(Ev::NowEnd(u));
             }
             Step::Update => { app.update(); }
+            Step::AppSetup => { app.setup_auto_despawn(); }
         }
         log(Ev::StepEnd(i));
         let post = post_obs(app.world_mut());
